@@ -179,6 +179,46 @@ func runC11(c *Ctx) {
 		c.prefix = ""
 	}
 
+	// the poll is resolved RELATIVE to the broker URL (a leading slash would discard the broker
+	// URL's own path): the Path of every URL handed to ResolveReference on a broker URL is a
+	// constant, or starts with a constant, from this table
+	{
+		ruleP := "O-1b endpoint paths are relative to the broker URL"
+		wantPath := map[string]string{
+			"client/lib.(*httpRendezvous).Exchange":     "client",
+			"client/lib.(*ampCacheRendezvous).Exchange": "amp/client/",
+			"proxy/lib.(*SignalingServer).pollOffer":    "proxy",
+			"proxy/lib.(*SignalingServer).sendAnswer":   "answer",
+		}
+		nRef := 0
+		for _, fn := range p.FnsIn("client/lib", "proxy/lib") {
+			for _, d := range deepCalls(fn, 2, "(*net/url.URL).ResolveReference") {
+				ci := d.In.(ssa.CallInstruction)
+				root := fn
+				want, known := wantPath[p.FnName(root)]
+				if !known {
+					continue
+				}
+				nRef++
+				pathV := structLitField(ci.Common().Args[1], "Path")
+				got := "?"
+				if pathV != nil {
+					if sv, ok := constString(pathV); ok {
+						got = sv
+					} else if bo, okb := strip(pathV).(*ssa.BinOp); okb && bo.Op == token.ADD {
+						if sv, ok := constString(bo.X); ok {
+							got = sv
+						}
+					}
+				}
+				c.check(got == want, ruleP, p.FnName(root)+" resolves \""+want+"\" against the broker URL", p.instrPos(ci), "", "the reference path is \""+got+"\", expected the relative \""+want+"\": an absolute reference drops the path of the broker URL, so the request (and the AMP-cache URL built from it) no longer keeps the broker's path")
+			}
+		}
+		if nRef < 4 {
+			c.okTrivial(ruleP, "ResolveReference sites on a broker URL", "-", fmt.Sprintf("%d (reference tree: 4)", nRef))
+		}
+	}
+
 	// ---------- O-3 / O-4 ----------
 	for _, w := range []struct{ typ string }{{"httpRendezvous"}, {"ampCacheRendezvous"}} {
 		fn := p.Fn("client/lib", "(*"+w.typ+").Exchange")
